@@ -17,7 +17,7 @@ import (
 //                 round of this or an earlier root height - is accepted; otherwise a locked replica's
 //                 election vote is dropped and its lock can never be re-proposed
 
-//zz:harness unwind=60 maxpaths=60000 timebudget=900 replay=model
+//zz:harness unwind=60 maxpaths=60000 timebudget=900 replay=model param.n@thorough=4
 //zz:reach L4.accepted L4.rejected P5.genuine
 func ZZ_C01_L4_highqc_admissible() {
 	n := zzParam("n", 3)
